@@ -45,6 +45,10 @@ type FileMatcher struct {
 }
 
 func (c *matcherCompiler) compileFile(file *pgo.File) FileMatcher {
+	c.metaUses = make(map[string]int)
+	c.countMetavars(reflect.ValueOf(file.Imports))
+	c.countMetavars(reflect.ValueOf(&file.Node).Elem())
+
 	var m Matcher
 	switch n := file.Node.(type) {
 	case *pgo.Expr:
